@@ -193,18 +193,18 @@ func c16ParseRaces(stderr string) []c16RaceReport {
 
 const (
 	c16OpenapiPkg = "sigs.k8s.io/kustomize/kyaml/openapi."
-	c16KnownRace  = "C16/race-IsNamespaceScoped-read"
 	c16ReinitRace = "C16/race-unlocked-read-vs-reinit-after-explicit-version"
 	c16MapFatal   = "C16/fatal-concurrent-map-access"
 )
 
-// c16RaceClass maps exactly the confirmed shapes to their finding classes; everything else keeps a class
-// that names the function pair (unlisted => VIOLATION).
+// c16RaceClass maps exactly the confirmed shape to its finding class; everything else keeps a class that names the
+// function pair (unlisted => VIOLATION).
 //
-//	known 1: unlocked read in IsNamespaceScoped vs write under initSchema (findNamespaceability), any round;
-//	known 2 (only rounds that contain a tree spelling out `openapi: version: <default>`, which makes SetSchema clear
-//	         schemaInit so that another build re-runs initSchema): the same IsNamespaceScoped read, or the unlocked
-//	         reads that follow initSchema() (SchemaForResourceType, rootSchema users) vs the writes of the re-parse.
+//	known (only rounds that contain a tree spelling out `openapi: version: <default>`, which makes SetSchema clear
+//	       schemaInit so that another build re-runs initSchema): the unlocked reads that follow initSchema()
+//	       (SchemaForResourceType, rootSchema users) vs the writes of the re-parse.
+//	The former finding F9 (unlocked read in IsNamespaceScoped vs findNamespaceability) was repaired in /repo db2770f:
+//	that pair is no longer listed and is a VIOLATION if it ever comes back.
 func c16RaceClass(rep c16RaceReport, explicitVersion bool) string {
 	r, w := "", ""
 	for _, f := range rep.Funcs {
@@ -217,12 +217,9 @@ func c16RaceClass(rep c16RaceReport, explicitVersion bool) string {
 		}
 	}
 	initWrites := map[string]bool{c16OpenapiPkg + "findNamespaceability": true, c16OpenapiPkg + "AddDefinitions": true}
-	if r == c16OpenapiPkg+"IsNamespaceScoped" && w == c16OpenapiPkg+"findNamespaceability" {
-		return c16KnownRace
-	}
 	if explicitVersion && initWrites[w] && strings.HasPrefix(rep.Funcs[0], "read:") != strings.HasPrefix(rep.Funcs[1], "read:") {
 		switch strings.TrimPrefix(r, c16OpenapiPkg) {
-		case "SchemaForResourceType", "IsNamespaceScoped", "resolve", "Resolve", "rootSchema", "Schema",
+		case "SchemaForResourceType", "resolve", "Resolve", "rootSchema", "Schema",
 			"(*ResourceSchema).Field", "(*ResourceSchema).Elements", "(*ResourceSchema).Lookup":
 			return c16ReinitRace
 		}
